@@ -202,8 +202,8 @@ type Script struct {
 	SessionID         string // default "4F3A9C21"
 	// OnPlay, when set, is called when a PLAY request is about to be answered
 	// (whatever the answer will be), before any byte of the answer is written.
-	OnPlay func()
-	SessionTimeout    bool   // append ";timeout=60" to the Session header (RFC 2326 §12.37)
+	OnPlay         func()
+	SessionTimeout bool // append ";timeout=60" to the Session header (RFC 2326 §12.37)
 }
 
 // Request is one RTSP request as the camera saw it.
@@ -407,6 +407,17 @@ func (c *Camera) conn(i int) *conn {
 		return nil
 	}
 	return c.conns[i]
+}
+
+// NextFrame is the index (into Script.Frames) of the frame connection i sends next.
+func (c *Camera) NextFrame(i int) int {
+	cn := c.conn(i)
+	if cn == nil {
+		return 0
+	}
+	cn.mu.Lock()
+	defer cn.mu.Unlock()
+	return cn.nextFrame
 }
 
 // Send makes connection i (negative: from the end) send its next n frames, gap
